@@ -599,22 +599,21 @@ func (pr *ProtoArray) OnPrune(ctx context.Context, anchorRoot Root, anchorSlot S
 		// nothing to do
 		return nil
 	}
-	// Get the head, it will help quickly determine if pruned nodes are canonical
-	head, err := pr.FindHead(anchorRoot, anchorSlot)
-	if err != nil {
-		return err
+	if !pr.updatedConnections {
+		if err := pr.updateConnections(); err != nil {
+			return err
+		}
 	}
-	headIndex, ok := pr.indices[head]
-	if !ok {
-		return HeadUnknownErr
-	}
+	var err error
 	// Remove the `self.indices` and `self.blockSlots` key/values for all the to-be-deleted nodes.
 	j := 0
 	var pruned []prunedNode
 	for i := pr.indexOffset; i < anchorIndex; i++ {
 		node := &pr.nodes[j]
 		j++
-		canonical := node.BestDescendant == headIndex
+		// A pruned node is canonical if the anchor descends from it: everything that leads up to
+		// the anchor is part of the chain that is kept, whatever the current head (if any) is.
+		_, canonical := pr.inSubtree(i, anchorIndex)
 		pruned = append(pruned, prunedNode{canonical, node})
 	}
 	// Send pruned nodes to the node sink (if any). Continue until it fails.
